@@ -58,7 +58,9 @@ pub(crate) fn array_node_to_string(node: &ArrayNode) -> Result<String, Error> {
 impl<'a> Model<'a> {
     pub(crate) fn cast_number(&self, s: &str) -> Option<f64> {
         match s.trim().parse::<f64>() {
-            Ok(f) => Some(f),
+            // `str::parse` also reads "inf", "infinity", "nan" and overflowing numerals ("1E400")
+            Ok(f) if f.is_finite() => Some(f),
+            Ok(_) => None,
             _ => {
                 let currency = &self.locale.currency.symbol;
                 let mut currencies = vec!["$", "€"];
